@@ -23,7 +23,7 @@ META = dict(
     property="C51",
     level="fault_enumeration",
     technique="directory snapshot before every state-changing filesystem call and inside every write (partial lengths) of random set/replace/delete histories on the real DirDBM; recovery re-run on every snapshot, nested for crashes during recovery; dict model",
-    level_text="Every crash point of each generated history is enumerated: before each remove/rename/mkdir/open-for-write, before each write and after 1, n/2, n-1 bytes (every length when n <= 12, plus one generated length) of it, and after each completed operation; crash points inside the recovery of each such state are enumerated recursively (depth <= 3). Histories themselves (keys, values, operation order, reopen points) are sampled by Hypothesis plus a complete enumeration of all histories of length <= 3 over two keys. Process-crash model: completed system calls persist in order; no power-loss reordering.",
+    level_text="Every crash point of each generated history is enumerated: before each remove/rename/mkdir/open-for-write, before each write and after 1, n/2, n-1 bytes (every length when n <= 12, plus one generated length) of it, and after each completed operation; crash points inside the recovery of each such state are enumerated recursively (depth <= 3). Histories themselves (keys, values, operation order, reopen points) are sampled by Hypothesis plus a complete enumeration of all histories of length <= 3 over two keys. Two ways of being interrupted at a filesystem call are enumerated: the process is killed there (nothing else runs), or an exception (KeyboardInterrupt, OSError EIO) is raised there and unwinds through DirDBM's own handlers before the process ends. Completed system calls persist in order; no power-loss reordering.",
     level_note="Trusted: the snapshot recorder (it must see every state-changing call DirDBM makes: checked per case by comparing the recorded call count with the directory's final state) and the dict model. Only DirDBM (not Shelf), keys <= 48 bytes.",
     design_ref="§5 C51",
     rule="case = (key pool, list of set/del/reopen operations over it, extra partial-write fraction). One evaluation = one history with all its crash states. non-trivial = a crash state that contains a leftover .new/.rpl file or lacks a file the model has (i.e. recovery or old-or-new reasoning was actually needed); distinct by the content of the crash state.",
@@ -72,9 +72,22 @@ class _Recorder:
         self.states = []      # (alts, why, tree, tag)
         self.calls = 0
         self.tag = 0
+        self.site = 0             # eligible fault-injection sites passed while active
+        self.inject_at = None     # raise inject_exc instead of performing the call at this site
+        self.inject_exc = None
+        self.fired = None
+        self.record = True
 
-    def snap(self, why):
+    def snap(self, why, site=True):
         self.calls += 1
+        if self.active and site:
+            idx = self.site
+            self.site += 1
+            if self.inject_at == idx and self.fired is None:
+                self.fired = why
+                raise self.inject_exc
+        if not self.record:
+            return
         tree = _read_tree(self.base)
         if self.states and self.states[-1][2] == tree and all(a in self.alts for a in self.states[-1][0]):
             return      # same directory content already recorded with expectations at least as strict
@@ -97,11 +110,13 @@ class _WFile:
         if rec.active:
             rec.snap("before write")
             prev = 0
-            for c in rec.cuts(len(data)):
+            cuts = rec.cuts(len(data))
+            for c in cuts:
                 self._f.write(data[prev:c])
                 self._f.flush()
                 prev = c
-                rec.snap(f"inside write {c}/{len(data)}")
+                # one of the partial-write points also serves as a fault-injection site (e.g. ENOSPC)
+                rec.snap(f"inside write {c}/{len(data)}", site=(c == cuts[len(cuts) // 2]))
             self._f.write(data[prev:])
             self._f.flush()
             return len(data)
@@ -115,6 +130,17 @@ class _WFile:
 
     def __getattr__(self, name):
         return getattr(self._f, name)
+
+
+class _Interrupt(KeyboardInterrupt):
+    """Injected at a filesystem call: the operation is interrupted by an
+    exception (SIGINT, MemoryError, ...) that unwinds through DirDBM's own
+    handlers before the process goes away."""
+
+
+def _injected_faults():
+    import errno
+    return [("KeyboardInterrupt", _Interrupt()), ("OSError(EIO)", OSError(errno.EIO, "injected I/O error"))]
 
 
 class _Patched:
@@ -295,7 +321,11 @@ def run_case(ctx, case):
         model = {}
         opkeys = []
 
-        def during(alts, fn):
+        plan = []      # per set/del operation: what is needed to repeat it with a fault injected
+
+        def during(alts, fn, redo=None):
+            start = rec.states[-1][2] if rec.states else None
+            site0 = rec.site
             rec.alts = alts
             rec.tag = len(opkeys)
             rec.active = True
@@ -305,6 +335,8 @@ def run_case(ctx, case):
                 rec.active = False
                 rec.alts = alts[-1:]
                 rec.snap("operation complete")
+                if redo is not None:
+                    plan.append((start, rec.site - site0, alts, len(opkeys), redo))
 
         db = during([{}], lambda: DirDBM(dbdir))
         opkeys.append(None)
@@ -320,10 +352,13 @@ def run_case(ctx, case):
                 after[k] = v
                 if k == b"":
                     model = _empty_key_op(ctx, case, db, dbdir, model, after, lambda: db.__setitem__(k, v), "db[b''] = v")
+                    rec.alts, rec.tag = [dict(model)], len(opkeys)
+                    rec.snap("operation complete")
                     opkeys.append(k)
                     continue
                 ctx.count("op replace" if k in model else "op set-new")
-                during([dict(model), after], lambda: db.__setitem__(k, v))
+                during([dict(model), after], lambda: db.__setitem__(k, v),
+                       redo=lambda d2, k=k, v=v: d2.__setitem__(k, v))
                 opkeys.append(k)
                 model = after
             elif kind == "del":
@@ -335,6 +370,8 @@ def run_case(ctx, case):
                     def _d():
                         del db[k]
                     model = _empty_key_op(ctx, case, db, dbdir, model, after, _d, "del db[b'']")
+                    rec.alts, rec.tag = [dict(model)], len(opkeys)
+                    rec.snap("operation complete")
                     opkeys.append(k)
                     continue
 
@@ -347,7 +384,7 @@ def run_case(ctx, case):
                     else:
                         if k not in model:
                             ctx.violation("delete-missing-no-keyerror", case, f"del db[{k!r}] of a missing key did not raise")
-                during([dict(model), after], do_del)
+                during([dict(model), after], do_del, redo=lambda d2, k=k: d2.__delitem__(k))
                 opkeys.append(k)
                 model = after
             else:
@@ -357,6 +394,41 @@ def run_case(ctx, case):
         for alts, why, tree, j in rec.states:
             label = f"crash {why} (op #{j}: {ops[j - 1] if j else 'create'!r:.60})"
             _recover_and_check(ctx, case, work, counter, tree, alts, opkeys[j], label, 0, extra_frac, holder)
+        # ---- the same operations interrupted by an exception at each filesystem call ----
+        for start, nsites, alts, j, redo in plan:
+            for site in range(nsites):
+                for exc_name, exc in _injected_faults():
+                    counter[0] += 1
+                    base2 = os.path.join(work, f"x{counter[0]}")
+                    _write_tree(base2, start)
+                    rec2 = _Recorder(base2, extra_frac)
+                    rec2.record = False
+                    rec2.inject_at, rec2.inject_exc = site, exc
+                    holder["rec"] = rec2
+                    try:
+                        db2 = DirDBM(os.path.join(base2, "db"))
+                        rec2.active = True
+                        try:
+                            redo(db2)
+                        except BaseException:
+                            # once the fault has been injected the operation is, by
+                            # construction, interrupted: whatever propagates (the fault
+                            # itself, KeyError made from it, an error of DirDBM's own
+                            # clean-up handler) is the interruption
+                            if rec2.fired is None:
+                                raise
+                        finally:
+                            rec2.active = False
+                    finally:
+                        holder["rec"] = None
+                    if rec2.fired is None:
+                        continue
+                    ctx.count(f"exception injected at a filesystem call ({exc_name})")
+                    ctx.count("exception injected " + rec2.fired.split(" ")[0] + " " + rec2.fired.split(" ")[1])
+                    label = (f"{exc_name} raised {rec2.fired} (fs call #{site} of op #{j}: {ops[j - 1]!r:.60}), "
+                             f"then the process ended")
+                    _recover_and_check(ctx, case, work, counter, _read_tree(base2), alts, opkeys[j], label, 0,
+                                       extra_frac, holder)
     if len(ctx.samples) < 5 and len(ops) >= 4 and len(rec.states) % 7 == 3:
         ctx.sample(case)
 
